@@ -10,7 +10,8 @@ package samlidp
 //@ guardedby Server.serviceProviders idpConfigMu
 //@ -- and no two entity IDs share one metadata object (an entry is never an alias of another: re-reading one
 //@ -- service must not change what another entity ID resolves to)
-//@ mapinv Server.serviceProviders nonnil distinct
+//@ -- and an entry, once published, is never written again (requests keep reading it after releasing the lock)
+//@ mapinv Server.serviceProviders nonnil distinct frozen
 
 //@ globalinv not_found: ErrNotFound != nil
 //@ globalinv login_template: defaultLoginFormTemplate != nil
